@@ -30,7 +30,7 @@ BUILD = os.environ.get("VERIF_BUILD", os.path.join(VERIF, "build"))
 SPEC = os.path.join(VERIF, "spec")
 HARNESS = os.path.join(VERIF, "harness")
 TLA_CP = "/opt/veriftools/tla/tla2tools.jar:/opt/veriftools/tla/CommunityModules-deps.jar"
-NCPU = os.cpu_count() or 4
+NCPU = int(os.environ.get("VERIF_NCPU") or os.cpu_count() or 4)   # VERIF_NCPU: development aid on a shared machine
 
 
 class Infra(Exception):
